@@ -36,6 +36,7 @@ func main() {
 	out := flag.String("out", "", "output directory for rewritten copies and overlay.json")
 	mcrt := flag.String("mcrt", "", "directory holding the mcrt package sources")
 	mapRange := flag.Bool("maprange", false, "rewrite map ranges (R1)")
+	sched := flag.Bool("sched", false, "rewrite go/chan struct{}/sync.WaitGroup/sync.Mutex in the CLI mains and the analyzer to the cooperative scheduler shims (R2)")
 	extra := flag.String("extra", "", "JSON file with extra overlay Replace entries to merge")
 	flag.Parse()
 	if *out == "" {
@@ -63,7 +64,7 @@ func main() {
 		}
 	}
 	var sites []site
-	if *mapRange {
+	if *mapRange || *sched {
 		cfg := &packages.Config{
 			Mode: packages.NeedName | packages.NeedFiles | packages.NeedCompiledGoFiles | packages.NeedSyntax | packages.NeedTypes | packages.NeedTypesInfo | packages.NeedImports,
 			Dir:  *repo,
@@ -85,7 +86,13 @@ func main() {
 				if strings.HasSuffix(fname, "_test.go") {
 					continue
 				}
-				n := rewriteMapRanges(p, f, &sites)
+				n := 0
+				if *mapRange {
+					n += rewriteMapRanges(p, f, &sites)
+				}
+				if *sched && (strings.HasSuffix(fname, "/check.go") || strings.HasSuffix(fname, "analyzer/run.go")) {
+					n += rewriteSched(p, f)
+				}
 				if n == 0 {
 					continue
 				}
@@ -235,4 +242,87 @@ func addImport(f *ast.File, path string) {
 	// put right after the package clause (before other decls); imports must come first
 	f.Decls = append([]ast.Decl{decl}, f.Decls...)
 	f.Imports = append(f.Imports, spec)
+}
+
+// rewriteSched replaces the concurrency primitives of one file by the scheduler shims.
+func rewriteSched(p *packages.Package, f *ast.File) int {
+	n := 0
+	isSignalChan := func(e ast.Expr) bool {
+		t := p.TypesInfo.TypeOf(e)
+		if t == nil {
+			return false
+		}
+		ch, ok := t.Underlying().(*types.Chan)
+		if !ok {
+			return false
+		}
+		st, ok := ch.Elem().Underlying().(*types.Struct)
+		return ok && st.NumFields() == 0
+	}
+	mc := func(name string) ast.Expr {
+		return &ast.SelectorExpr{X: ast.NewIdent("verifmcrt"), Sel: ast.NewIdent(name)}
+	}
+	rewriteStmtList := func(list []ast.Stmt) {
+		for i, st := range list {
+			switch s := st.(type) {
+			case *ast.GoStmt:
+				if fl, ok := s.Call.Fun.(*ast.FuncLit); ok && len(s.Call.Args) == 0 {
+					list[i] = &ast.ExprStmt{X: &ast.CallExpr{Fun: mc("Go"), Args: []ast.Expr{fl}}}
+					n++
+				} else {
+					fmt.Fprintf(os.Stderr, "vinstr: go statement not rewritten at %s\n", p.Fset.Position(s.Pos()))
+				}
+			case *ast.SendStmt:
+				if isSignalChan(s.Chan) {
+					list[i] = &ast.ExprStmt{X: &ast.CallExpr{Fun: &ast.SelectorExpr{X: s.Chan, Sel: ast.NewIdent("Send")}}}
+					n++
+				}
+			case *ast.ExprStmt:
+				if u, ok := s.X.(*ast.UnaryExpr); ok && u.Op == token.ARROW && isSignalChan(u.X) {
+					list[i] = &ast.ExprStmt{X: &ast.CallExpr{Fun: &ast.SelectorExpr{X: u.X, Sel: ast.NewIdent("Recv")}}}
+					n++
+				}
+			}
+		}
+	}
+	ast.Inspect(f, func(node ast.Node) bool {
+		switch x := node.(type) {
+		case *ast.BlockStmt:
+			rewriteStmtList(x.List)
+		case *ast.CaseClause:
+			rewriteStmtList(x.Body)
+		case *ast.CallExpr:
+			if id, ok := x.Fun.(*ast.Ident); ok && id.Name == "make" && len(x.Args) == 2 && isSignalChan(x) {
+				x.Fun = mc("NewSema")
+				x.Args = x.Args[1:]
+				n++
+			}
+		case *ast.SelectorExpr:
+			if id, ok := x.X.(*ast.Ident); ok && id.Name == "sync" && (x.Sel.Name == "WaitGroup" || x.Sel.Name == "Mutex") {
+				if _, isPkg := p.TypesInfo.Uses[id].(*types.PkgName); isPkg {
+					id.Name = "verifmcrt"
+					n++
+				}
+			}
+		}
+		return true
+	})
+	if n > 0 {
+		hasImport := false
+		for _, d := range f.Decls {
+			if gd, ok := d.(*ast.GenDecl); ok && gd.Tok == token.IMPORT {
+				for _, sp := range gd.Specs {
+					if sp.(*ast.ImportSpec).Path.Value == fmt.Sprintf("%q", mcrtPath) {
+						hasImport = true
+					}
+				}
+			}
+		}
+		if !hasImport {
+			addImport(f, mcrtPath)
+		}
+		// keep the sync import used
+		f.Decls = append(f.Decls, &ast.GenDecl{Tok: token.VAR, Specs: []ast.Spec{&ast.ValueSpec{Names: []*ast.Ident{ast.NewIdent("_")}, Values: []ast.Expr{&ast.SelectorExpr{X: ast.NewIdent("sync"), Sel: ast.NewIdent("NewCond")}}}}})
+	}
+	return n
 }
